@@ -137,7 +137,9 @@ def classify(pid, pred, cj):
     elif pid == "C09" and pred == 3:
         detail = "max-frame-size-lowered-while-queued"
     elif pid == "C10" and pred == 1:
-        if "push" in kinds:
+        if any(st.get("hpack_order_inversion") for st in steps):
+            detail = "header-blocks-sent-out-of-encoding-order"
+        elif "push" in kinds:
             detail = "push-promise"
         elif any(o.get("kind") == "headers" and o.get("splits") for o in ops):
             detail = "headers-with-continuation"
@@ -224,7 +226,7 @@ def run_property(ctx, pid, cmd, prop_file, level_extra):
     elif ob_failed:
         ctx.notes.append({"unchecked_obligations": ob_failed})
 
-    nontriv = int(meta.get("cases_with_queued_frames", 0))
+    nontriv = int(meta.get("distinct_nontrivial_frames", 0))
     coverage = {
         "obligations": len(info["theorems"]),
         "discharged": len(info["discharged"]),
@@ -247,7 +249,9 @@ def run_property(ctx, pid, cmd, prop_file, level_extra):
                 "MAX_FRAME_SIZE changes, padding, empty END_STREAM DATA, header blocks split at arbitrary points, trailers, RST_STREAM, "
                 "PRIORITY, PUSH_PROMISE, PING, GOAWAY) fed to the two real relay objects; evaluations = input frames, each compared "
                 "with the model (frames written to both endpoints, status, windows and queues of both relays); "
-                "non-trivial = histories in which at least one frame was queued behind a window",
+                "non-trivial = input frames that leave something queued or a negative window, release queued frames on WINDOW_UPDATE/SETTINGS, "
+                "are split, are padded, complete a continued header block, or are refused; distinct = different frame summary and "
+                "different flow-control state of both relays afterwards (counted by the harness)",
         "traces_validated_against_impl": int(meta.get("cases", 0)),
         "model_mismatches": len(mbad),
         "property_failures_on_impl": len(pbad),
